@@ -285,6 +285,15 @@ def inner_cond(flow, node, scope, drop_ok_facts=False):
     return And(*ic)
 
 
+def exit_on_channel_close(env, fn, loop, x):
+    """Is the `break`/`return` x (inside `loop` of fn) taken only when a channel receive returned None, i.e. when every sender
+    is gone?  `loop { match rx.recv().await { Some(v) => .., None => break } }` is the same loop as `while let Some(v) = ..`."""
+    from .analysis import Atom, Not, atoms_of, implies
+    ic = inner_cond(env.flow(fn), x, loop["body"])
+    closed = [a for a in atoms_of(ic) if a.startswith("some(") and ".recv()" in a]
+    return any(implies(ic, Not(Atom(a)))[0] for a in closed)
+
+
 class AuxReport:
     """Minimal Report stand-in used to re-evaluate another property's rules and fold selected results."""
 
